@@ -647,6 +647,28 @@ func propC18(c *vs.Case, nSubs, nRes, length int, heavyOps bool) error {
 		}
 		for _, res := range c18Names(nRes) {
 			res := res
+			if hidden[res] || w.sim.Get(res, "ns1", "pre") == nil {
+				continue
+			}
+			ops = append(ops, op{"object pre in " + res + " deleted and re-created under the same name", func() error {
+				w.sim.ExtDelete(res, "ns1", "pre", "")
+				o, err := w.sim.ExtCreate(res, map[string]any{"metadata": map[string]any{"name": "pre", "namespace": "ns1"}, "spec": map[string]any{"x": fmt.Sprintf("again%d", step)}})
+				if err != nil {
+					return fmt.Errorf("harness: %v", err)
+				}
+				rv, _ := o["metadata"].(map[string]any)["resourceVersion"].(string)
+				for _, h := range w.handlersOn(res) {
+					hh := h
+					if !poll(5*time.Second, func() bool { return hh.has("pre", rv) }) {
+						return vs.Violf("C18/event-not-delivered", "pre was deleted and re-created (rv %s); handler %s never received the new object", rv, hh.id)
+					}
+				}
+				c.Class("same-name-recreated")
+				return nil
+			}})
+		}
+		for _, res := range c18Names(nRes) {
+			res := res
 			ops = append(ops, op{"outside create+delete in " + res, func() error {
 				name := fmt.Sprintf("tmp%d", step)
 				w.sim.ExtCreate(res, map[string]any{"metadata": map[string]any{"name": name, "namespace": "ns1"}})
